@@ -203,6 +203,17 @@ class TrendFit(Contract):
                 arrs = _rand_coords(rng, nrng, 2, 2, scale=2.0)
             arrs = tuple(np.tile(x, (2, 3)) + nrng.uniform(-1, 1, (x.shape[0] * 2, x.shape[1] * 3)) for x in arrs)
             yield (verde.Trend(deg), arrs[:2], arrs[2]), dict(weights=rng.choice([None, np.abs(arrs[3]) + 0.1]))
+        # integer and mixed dtypes (coordinates / data), with fractional float weights
+        for deg, kinds in ((1, "iii"), (2, "ifi"), (1, "fii"), (1, "iif")):
+            n = 30
+            e, nn_ = nrng.permutation(60)[:n].astype(float), nrng.permutation(60)[:n].astype(float)
+            if kinds[1] == "f":
+                nn_ = nn_ + nrng.uniform(0.1, 0.9, n)
+            if kinds[0] == "f":
+                e = e + nrng.uniform(0.1, 0.9, n)
+            d = np.round(3 + 2 * e - 5 * nn_ + nrng.normal(0, 2, n))
+            cast = lambda x, k: x.astype("int64") if k == "i" else x  # noqa: E731
+            yield (verde.Trend(deg), (cast(e, kinds[0]), cast(nn_, kinds[1])), cast(d, kinds[2])), dict(weights=nrng.uniform(0.2, 2.9, n))
 
     tol = (1e-6, 1e-8)
 
